@@ -13,7 +13,7 @@ from . import robust as R
 from . import robust_check as RC
 
 MODES = ["--suggest", "--hover", "--define"]
-RECEIVERS = ["1", "\"s\"", "[1]", "{a: 1}", "x", "Foo", "Foo.new", "self", "nil", "1.0", ":a", "(1..2)", "K", "@a", "x.y"]
+RECEIVERS = ["1", "\"s\"", "''", "\"\"", "[]", "{}", "[1]", "{a: 1}", "x", "Foo", "Foo.new", "self", "nil", "1.0", ":a", "(1..2)", "K", "@a", "x.y"]
 
 
 def rows_for(text, tier, rng):
@@ -77,6 +77,12 @@ def run(tier, work):
             for post in ("", "\n", "\ny = 2\n"):
                 texts.append(("recv", pre + recv + "." + post))
                 texts.append(("recv", pre + "y = " + recv + "." + post))
+    # values an editor row can end on, alone and behind an assignment; class graphs with cycles
+    for val in ("''", "\"\"", "[]", "{}", "nil", ":a", "1.5", "self", "K", "Foo"):
+        texts.append(("value", "buf = %s\n%s\nbuf\n" % (val, val)))
+        texts.append(("value", "d = {k: %s}\nd[:k]\n" % val))
+    texts.append(("cycle", "class A < B\n  def f(x)\n    x\n  end\nend\nclass B < A\nend\na = A.new\na.\nA.\n"))
+    texts.append(("cycle", "module M\n  include M\n  def g\n  end\nend\nclass C\n  include M\nend\nC.new.\n"))
     jobs = []
     seen = set()
     for tag, text in texts:
